@@ -84,7 +84,25 @@ def cases(draw):
     proto = draw(st.sampled_from(["h1", "h1", "h2-alpn", "h2-prior"]))
     n = draw(st.integers(1, 3))
     port = draw(st.sampled_from([None, None, 8080]))
-    return {"proto": proto, "port": port, "requests": [draw(requests(i)) for i in range(n)], "sync": draw(st.booleans())}
+    reqs = [draw(requests(i)) for i in range(n)]
+    share = draw(st.sampled_from([None, None, None, "url", "headers"])) if n >= 2 else None
+    if share == "url":
+        # every request of the case is built from ONE httpcore.URL instance (the first request's target)
+        for r in reqs:
+            r["target"] = reqs[0]["target"]
+    elif share == "headers":
+        # every request of the case passes the SAME list object of (bytes, bytes) tuples; the token travels in the target instead
+        base = [h for h in reqs[0]["headers"] if h[0].lower() not in ("x-tok", "content-length", "transfer-encoding")]
+        if not any(h[0].lower() == "host" for h in base) and draw(st.booleans()):
+            base.insert(0, ["Host", "shared.example"])
+        for i, r in enumerate(reqs):
+            r["headers"] = [list(h) for h in base]
+            r["target"] = f"/t/{r['tok']}" + (r["target"] if r["target"] != "/" else "")
+            r["illegal"] = None
+            r["ext_target"] = None  # the token travels in the target here
+            if r["api"] == "handle":
+                r["api"] = "request"
+    return {"proto": proto, "port": port, "requests": reqs, "sync": draw(st.booleans()), "share": share}
 
 
 def corrupt(req):
@@ -214,10 +232,25 @@ def execute(case) -> Outcome:
     scheme, host = base_url(case)
     results = []
 
+    share = case.get("share")
+    shared_url = None
+    shared_headers = None
+    if share == "url":
+        from ..common import import_httpcore
+
+        shared_url = import_httpcore().URL(f"{scheme}://{host}{case['requests'][0]['target']}")
+    elif share == "headers":
+        shared_headers = [(n.encode("latin-1"), v.encode("latin-1")) for n, v in case["requests"][0]["headers"]]
+    shared_headers_before = list(shared_headers) if shared_headers is not None else None
+
     def issue(req):
         method, headers, ext = (req["method"], req["headers"], req["ext_target"]) if not req["illegal"] else corrupt(req)
         spec = {"method": method, "url": f"{scheme}://{host}{req['target']}", "headers": headers, "content": req["body"],
                 "api": req["api"], "ext_target": ext}
+        if shared_url is not None:
+            spec["url"] = shared_url
+        if shared_headers is not None:
+            spec["_headers_obj"] = shared_headers
         return spec, headers
 
     def count_ex():
@@ -301,6 +334,11 @@ def execute(case) -> Outcome:
         tags.append("api-" + req["api"])
     if reused:
         tags.append("reuse")
+    if share:
+        tags.append("shared-" + share + "-object")
+    if shared_headers is not None and shared_headers != shared_headers_before:
+        vio.append(V(P, "caller-list-mutated", f"{case['proto']}: the header list object the caller passed to every request was changed by the library: "
+                     f"{shared_headers_before!r} -> {shared_headers!r}", proto=cp["proto"]))
     # HTTP/1.1: parser must sit exactly at a message boundary at the end
     for p in world.pipes:
         leaf = p.peer.leaf()
@@ -316,7 +354,7 @@ def execute(case) -> Outcome:
             if leaf.h2.errors:
                 vio.append(V(P, "h2-undecodable", f"peer could not decode client frames: {leaf.h2.errors[:2]}", proto="h2"))
     tags = sorted(set(tags))
-    nontrivial = any(t in tags for t in ("dup-headers", "caller-host", "caller-content-length", "caller-transfer-encoding",
+    nontrivial = bool(share) or any(t in tags for t in ("dup-headers", "caller-host", "caller-content-length", "caller-transfer-encoding",
                                          "empty-chunk", "reuse", "target-extension")) or any(t.startswith("illegal") for t in tags)
     return Outcome(vio, tags, nontrivial, info={"n_requests": len(case["requests"]), "pipes": len(world.pipes),
                                                 "outcomes": [r[0].get("status") or r[0]["exc"]["name"] for r in results]})
@@ -375,7 +413,7 @@ RULE = ("A case is 1-3 sequential requests to one origin over HTTP/1.1, HTTP/2 v
         "method (common + unusual tokens), origin-form target with params/query or the 'target' extension ('*', absolute-form, "
         "authority-form), 0-5 headers with mixed case and duplicates, optional caller Host / Content-Length / Transfer-Encoding, "
         "body None / bytes / empty bytes / iterator chunkings incl. empty chunks, through request(), stream() or "
-        "handle_request(Request); one request in five gets a definitely-illegal head (CR, LF, NUL, space, empty in method / target / "
+        "handle_request(Request); in some cases all requests share one httpcore.URL instance or one header list object (reused caller objects); one request in five gets a definitely-illegal head (CR, LF, NUL, space, empty in method / target / "
         "header name / value). Second layer: a request whose stream a GOAWAY refuses, checked on every transmission. Non-trivial: "
         "duplicates, caller-supplied Host/CL/TE, empty chunk, reuse, target extension or illegal head; distinct = distinct case.")
 
